@@ -1,6 +1,7 @@
 (* C05 — stream operations terminate; no deadlock, panic or leaked goroutine (in-process core). *)
 From Coq Require Import ZArith List Bool Lia.
 From Grpchan Require Import gen.Inproc model.Chan1 proofs.Chan1.
+From Grpchan Require model.HttpClient proofs.HttpClient.
 From Grpchan Require model.InprocStream proofs.StreamInv corr.Stream proofs.StreamTrace.
 Import ListNotations.
 Close Scope Z_scope.
@@ -54,3 +55,14 @@ Theorem C05_accepted_schedule_is_a_safe_run : forall rs rounds,
   exists s3, StreamTrace.exhibits (InprocStream.init rs) rounds s3 /\ StreamInv.reachable rs s3 /\ StreamInv.Inv s3.
 Proof. exact StreamTrace.accepted_schedule_is_a_safe_run. Qed.
 Print Assumptions C05_accepted_schedule_is_a_safe_run.
+
+(* ---- the HTTP client stream as a concurrent system (model/HttpClient.v): the reader goroutine, the caller's
+   receives, the transport's deliveries and the end of the context in every interleaving, for every reply body.
+   hreach carries ghost histories: the frames the reader's loop read (rd), those the deferred ReadAll threw
+   away (dn), and what RecvMsg returned (lg). *)
+
+(* the two "this shouldn't be possible" panics of the HTTP client's RecvMsg are unreachable *)
+Theorem C05_http_no_sanity_panic : forall rs b0 e0 s rd dn lg,
+  Grpchan.proofs.HttpClient.hreach rs b0 e0 s rd dn lg -> Grpchan.model.HttpClient.panicked s = false.
+Proof. exact Grpchan.proofs.HttpClient.no_sanity_panic. Qed.
+Print Assumptions C05_http_no_sanity_panic.
